@@ -108,6 +108,31 @@ def m_partial_ne(it, st, fr, t, args, ga):
     return I.BoolV(B(('sym', st.fresh_name('ne'))))
 
 
+def _bit_count_model(kind):
+    """trailing_zeros / leading_zeros / count_ones / count_zeros of an integer: an integer in [0, bits] (the exact value is
+    kept for constants; trailing_zeros of a non-zero value is at most floor(log2(max)))"""
+    def m(it, st, fr, t, args, ga):
+        a = _num(args[0])
+        bits = {'u8': 8, 'i8': 8, 'u16': 16, 'i16': 16, 'u32': 32, 'i32': 32, 'u64': 64, 'i64': 64, 'usize': 64, 'isize': 64}.get(a.ty, 64)
+        c = a.term.const_value()
+        if c is not None and c == int(c) and c >= 0:
+            v = int(c)
+            b = bin(v)[2:].zfill(bits)[-bits:]
+            r = {'trailing_zeros': bits if v == 0 else len(b) - len(b.rstrip('0')), 'leading_zeros': bits if v == 0 else len(b) - len(b.lstrip('0')),
+                 'count_ones': b.count('1'), 'count_zeros': b.count('0')}[kind]
+            return I.Num(Poly.const(r), 'u32')
+        lo, hi = st.ctx.rng(a.term)
+        top = bits
+        if kind == 'trailing_zeros' and lo >= 1 and hi != INF:
+            top = max(int(hi).bit_length() - 1, 0)
+        if kind == 'count_ones' and lo >= 0 and hi != INF:
+            top = min(bits, int(hi).bit_length())
+        r = st.ctx.sym_range(st.fresh_name(kind), 0, top, integer=True)
+        st.ctx.sym_deps[r.as_single_atom()] = set(a.term.atoms()) if hasattr(st.ctx, 'sym_deps') else set()
+        return I.Num(r, 'u32')
+    return m
+
+
 def m_abs_diff(it, st, fr, t, args, ga):
     a, b = _num(args[0]), _num(args[1])
     return I.Num(t_abs(a.term - b.term, st.ctx), a.ty)
@@ -1404,6 +1429,8 @@ def registry():
             R.setdefault(base + name, fn_)
         if ity.startswith('u'):
             R.setdefault(base + 'abs_diff', m_abs_diff)
+        for kind in ('trailing_zeros', 'leading_zeros', 'count_ones', 'count_zeros'):
+            R.setdefault(base + kind, _bit_count_model(kind))
     # Default::default of the primitive types (reached through #[derive(Default)] on private state structs)
     for ity in ('u8', 'u16', 'u32', 'u64', 'usize', 'i8', 'i16', 'i32', 'i64', 'isize'):
         R.setdefault('<%s as core::default::Default>::default' % ity, (lambda ty_: (lambda it, st, fr, t, args, ga: I.Num(ZERO, ty_)))(ity))
